@@ -181,8 +181,7 @@ def run_unit(unit):
             part.states += 1
             det = dict(word=unit['word'], stop=stop, obj=obj, variant=v, max_field=mf, image_medium='water' if img else 'air')
             rows = prescription.rows(sp, lambda m, prev: LZ.ref_index(m, 0.5876, prev))
-            epl = abcd.EPL(rows)
-            if not math.isfinite(epl) or abs(epl) > 1e6:
+            if abcd.pupil_degenerate(rows):
                 part.count('skipped-telecentric-pupil')
                 continue
             res = check_state(part, o, sp, det, full=(stop == 0))
